@@ -30,3 +30,6 @@ chk("C03","chainsim","exploration",
 chk("C17","chainsim","exploration",
  "The dispatch surface is enumerated by reflection over the registered contracts (exhaustive, counted in the evidence); roles, argument vectors, audit setting and state histories are sampled; oracles: reserved entry points fail, privileged operations fail for outsiders, refused calls change nothing (twin replica), reads write nothing, no outsider call changes existing interchain counters/records.",
  CN+" No schedule or fault dimension exists for this property: the simulator contributes configuration/state-history variety, the twin-diff oracle and process-death attribution. The classification of methods into reserved/privileged is written from the statement.", "deterministic simulation: reflection-enumerated surface x seeded roles/arguments + twin no-effect diff", "DESIGN.md §5 C17")
+chk("C08","chainsim","exploration",
+ "Seeded input generation executed on the simulated node: structure/byte-level mutations of transactions of every kind and direct calls of every reflection-enumerated method with typed arbitrary arguments, at any block position; receipts-per-transaction, next height, wedge watchdog and process survival are checked; node deaths are attributed to the run, minimised with one process per candidate and replayed.",
+ CN+" The quantifier is over inputs only: no schedule or fault space is claimed; the simulator adds wedge/crash detection, block-position variation and exact replay.", "deterministic simulation used as an input-robustness harness: seeded mutations + reflection-enumerated calls + process-death attribution", "DESIGN.md §5 C08")
